@@ -331,6 +331,13 @@ def prepareWorkflow (env : Env) (steps : List StepSpec) : Except String WfOut :=
     | .error e => .error e
     | .ok (rs, res, pp) => pure ⟨rs, readyOf rs, res, pp⟩
 
+/-- A run of preparations in one process (a controller prepares many Workflows, and the same
+    Workflow again after every update).  `prepare_workflow` keeps no state of its own between
+    calls — the only thing it reads besides its argument is the cache (`env`) — so a run is the
+    list of the single preparations. -/
+def prepareSeq (env : Env) (specs : List (List StepSpec)) : List (Except String WfOut) :=
+  specs.map (prepareWorkflow env)
+
 /-! ## ResourceFunction: which overlay functions are watched -/
 
 structure OverlaySpec where
